@@ -22,7 +22,11 @@ from vf import core, ds as D
 SHARD_EXT = (".fb", ".npz", ".tfrec")
 
 KINDS_Q = ("root", "x", "y", "x/y", "multi")
-KINDS_T = KINDS_Q + ("multi3", "empty")
+# ("over" = overlapping sessions exists as a kind for experiments only: the
+# unchanged library loses the inner session when it goes into a NEW
+# sub-directory, i.e. overlapping sessions are not a supported history and
+# the properties quantify over *sequences* of completed sessions.)
+KINDS_T = KINDS_Q + ("multi3", "empty", "rej")
 PATTERNS = ("train", "test", "mix", "holdout")
 
 
@@ -80,9 +84,28 @@ def do_session(dataset, s: int, kind: str, pattern: str, eps: int, ref: dict,
                 f"VF-RETVAL multi-writer return values {res} != {exp}")
         for w in writers:
             written.extend(w)
+    elif kind == "over":
+        # two overlapping sessions in one thread: a root session that has
+        # already rolled a shard, a complete session into sub-directory x
+        # inside it, then the outer session goes on and exits
+        items = session_items(pattern, eps)
+        first = items[0]
+        with dataset.filler() as f:
+            q = 0
+            for _ in range(eps + 1):
+                f.write_example(values=D.example((s, 0, q)), split=first)
+                written.append((first, (s, 0, q)))
+                q += 1
+            with DatasetFiller(dataset,
+                               relative_path_from_split=Path("x")) as g:
+                for j, sp in enumerate(items):
+                    g.write_example(values=D.example((s, 1, j)), split=sp)
+                    written.append((sp, (s, 1, j)))
+            f.write_example(values=D.example((s, 0, q)), split=first)
+            written.append((first, (s, 0, q)))
     else:
         items = [] if kind == "empty" else session_items(pattern, eps)
-        if kind in ("root", "empty"):
+        if kind in ("root", "empty", "rej"):
             filler = dataset.filler()
         else:
             filler = DatasetFiller(dataset,
@@ -91,6 +114,17 @@ def do_session(dataset, s: int, kind: str, pattern: str, eps: int, ref: dict,
             for q, sp in enumerate(items):
                 f.write_example(values=D.example((s, 0, q)), split=sp)
                 written.append((sp, (s, 0, q)))
+            if kind == "rej" and items:
+                # a rejected write (wrong shape) that the caller catches,
+                # as the last call for every split touched
+                for sp in dict.fromkeys(items):
+                    bad = D.example((s, 9, 9))
+                    bad["v"] = bad["v"][:1]
+                    try:
+                        f.write_example(values=bad, split=sp)
+                        raise AssertionError("VF-ACCEPTED wrong shape")
+                    except ValueError:
+                        pass
     for sp, idt in written:
         ref.setdefault(sp, []).append(idt)
     sessions.append(written)
